@@ -424,6 +424,10 @@ def correspond(res, spec):
                     strict, inside, total = fragment_membership(wd, ops)
                     res.cov["streams"][stream]["fragment_membership"] = dict(
                         decided_by="driver frag3 = Restart.frag3B (sound for Restart.Frag3: frag3_of_B)", histories=total, inside=inside)
+                if stream == "frag":
+                    strict, inside, total = fragment_membership(wd, ops, "frag1")
+                    res.cov["streams"][stream]["fragment_membership"] = dict(
+                        decided_by="driver frag1 = one start-up inside Restart.Frag3, then Restart.fragB (sound for Safety.Frag: frag_of_B)", histories=total, inside=inside)
                 allv, allo = judge_hist.judge(ops, impl, judge_hist.ALL, ignore_envelope=(stream in ("frag", "fragboot")), strict_lines=strict)
                 try:
                     pickle.dump((allv, allo), open(jc, "wb"))
@@ -469,12 +473,12 @@ def correspond(res, spec):
         escalate(res, spec)
 
 
-def fragment_membership(wd, ops):
+def fragment_membership(wd, ops, mode="frag3"):
     """histories of a stream that lie inside Restart.Frag3, as decided by the model driver (`driver frag3`):
     returns (set of the line numbers of their `hist` lines, number inside, number of histories)"""
     import subprocess
     with open(os.path.join(wd, "ops.txt")) as fi:
-        r = subprocess.run([C.DRIVER, "frag3"], stdin=fi, stdout=subprocess.PIPE, stderr=subprocess.PIPE, text=True, timeout=1500)
+        r = subprocess.run([C.DRIVER, mode], stdin=fi, stdout=subprocess.PIPE, stderr=subprocess.PIPE, text=True, timeout=1500)
     marks = [l for l in r.stdout.split("\n") if l != ""]
     strict, total, cur, ok = set(), 0, None, True
     if r.returncode != 0 or len(marks) != len(ops):
@@ -514,7 +518,7 @@ def escalate(res, spec):
                 continue
             ops = C.op_lines(os.path.join(wd, "ops.txt"))
             impl = [l for l in C.read_lines(os.path.join(wd, "impl.txt")) if l != ""]
-            strict = fragment_membership(wd, ops)[0] if stream == "fragboot" else None
+            strict = fragment_membership(wd, ops)[0] if stream == "fragboot" else (fragment_membership(wd, ops, "frag1")[0] if stream == "frag" else None)
             allv, _ = judge_hist.judge(ops, impl, want | {res.pid}, ignore_envelope=(stream in ("frag", "fragboot")), strict_lines=strict)
             viol = [v for v in allv if v["prop"] in (want | {res.pid})]
             res.cov["escalated_search"].append(dict(stream=stream, seed=seed, lines=len(ops), violations=len(viol)))
